@@ -16,6 +16,7 @@ Definition cinv (cl : bool) (ps : list Z) (c : cons) : Prop :=
   match cph c with
   | Waiting => cout c = ONone /\ cl = false /\ cbuf c = [] /\ crecv c = pend ps c
   | Woken => cout c = ONone /\ (cbuf c <> [] \/ cl = true) /\ crecv c ++ cbuf c = pend ps c
+  | Postponed => cout c = ONone /\ ckind c = Iter /\ cbuf c <> [] /\ crecv c ++ cbuf c = pend ps c
   | Body | Abandoned => cout c = ONone /\ ckind c = Iter /\ crecv c ++ cbuf c = pend ps c
   | Done =>
       match cout c with
@@ -101,7 +102,7 @@ Proof. intros. unfold c_put. destruct (registered c); auto. rewrite cid_wake. re
 
 Lemma cid_local : forall o cl c c' r, local o cl c = Some (c', r) -> cid c' = cid c.
 Proof.
-  intros. unfold local, iter_loop, single_resume in H.
+  intros. unfold local, iter_loop, iter_wake, yield_head, single_resume in H.
   destruct o, (cph c), (ckind c); try discriminate;
     try (destruct (cbuf c)); try destruct cl; inversion H; reflexivity.
 Qed.
@@ -129,6 +130,9 @@ Proof.
   - destruct H as (Ho & _ & Hr). split; auto.
     split; [left; destruct (cbuf c); discriminate|].
     rewrite skipn_snoc by lia. rewrite <- Hr, app_assoc. reflexivity.
+  - destruct H as (Ho & Hk & Hb & Hr). repeat split; auto.
+    + destruct (cbuf c); discriminate.
+    + rewrite skipn_snoc by lia. rewrite <- Hr, app_assoc. reflexivity.
   - destruct H as (Ho & Hk & Hr). repeat split; auto.
     rewrite skipn_snoc by lia. rewrite <- Hr, app_assoc. reflexivity.
   - destruct H as (Ho & Hk & Hr). repeat split; auto.
@@ -153,6 +157,7 @@ Proof.
   - destruct H as (Ho & _ & Hr); auto.
   - auto.
   - auto.
+  - auto.
   - destruct (cout c); auto.
     + destruct H as (_ & F & _). discriminate.
     + destruct H as (_ & F & _). discriminate.
@@ -166,7 +171,7 @@ Proof.
   destruct o; try discriminate;
   destruct (cph c) eqn:P; try discriminate;
   destruct (ckind c) eqn:K; try discriminate;
-  unfold single_resume, iter_loop, finish, set_ph in L;
+  unfold single_resume, iter_loop, iter_wake, yield_head, finish, set_ph in L;
   try (destruct (cbuf c) as [|x b] eqn:B);
   try (destruct cl eqn:C);
   inversion L; subst c' r; clear L;
@@ -186,6 +191,7 @@ Proof.
   all: try (exists []; rewrite app_nil_r; auto; fail).
   all: try (split; auto; eexists; eauto; fail).
   all: try (split; auto; exists []; rewrite app_nil_r; auto; fail).
+  all: try (repeat split; auto; discriminate).
 Qed.
 
 Lemma cinv_lf : forall o cl ps c, cinv cl ps c -> cinv cl ps (lf o cl c).
@@ -298,6 +304,7 @@ Proof.
   - tauto.
   - tauto.
   - tauto.
+  - tauto.
 Qed.
 
 (* a consumer that is gone received a prefix of them and nothing else *)
@@ -395,15 +402,27 @@ Proof.
   apply step_closed_puts; auto.
 Qed.
 
-(* ... and what a still-subscribed iterating consumer gets on a closed channel: the head of
-   its buffer while there is one, then the end *)
-Theorem closed_drains_thm : forall s c o i, closed s = true ->
+(* ... and what a still-subscribed iterating consumer gets on a closed channel: the messages
+   still in its buffer, one per (postponement, pop), in order, then the end *)
+Theorem closed_drains_thm : forall s c i, closed s = true ->
   find i (conss s) = Some c -> ckind c = Iter ->
-  (o = Resume i /\ cph c = Woken \/ o = Next i /\ cph c = Body) ->
-  snd (step s o) = match cbuf c with x :: _ => RYield x | [] => REnded end.
+  (cph c = Woken ->
+     snd (step s (Resume i)) = match cbuf c with x :: _ => RYield x | [] => REnded end) /\
+  (cph c = Body ->
+     snd (step s (Next i)) = match cbuf c with _ :: _ => RPostpone | [] => REnded end) /\
+  (cph c = Postponed ->
+     snd (step s (Resume i)) = match cbuf c with x :: _ => RYield x | [] => RError end).
 Proof.
-  intros s c o i C F K [[-> P] | [-> P]]; simpl; rewrite F; unfold local; rewrite P, K;
-    unfold iter_loop; rewrite C; destruct (cbuf c); reflexivity.
+  intros s c i C F K. repeat split; intros P; simpl; rewrite F; unfold local; rewrite P, K;
+    unfold iter_wake, iter_loop, yield_head; rewrite ?C; destruct (cbuf c); reflexivity.
+Qed.
+
+(* a consumer suspended in its postponement has a non-empty buffer: the pop cannot fail *)
+Theorem postponed_has_message_thm : forall s c,
+  reachable s -> In c (conss s) -> cph c = Postponed -> cbuf c <> [].
+Proof.
+  intros s c R I P. pose proof (reach_cinv s c R I) as (_ & _ & H).
+  rewrite P in H. tauto.
 Qed.
 
 (* isolation: a section performed by (or a fault hitting) consumer i -- subscribing,
